@@ -40,6 +40,7 @@ type Case struct {
 	Witness  string  // pinned canonical witness of this recorded finding: a disagreement on it is that finding
 	Cwd      string  // working directory of the generator run, relative to the program directory
 	AbsInput bool    // pass the root file by absolute path
+	Input    string  // spelling of the root file on the command line (relative to Cwd), when it is not the plain path
 	Group    []*Case // further schema files passed to the SAME generator invocation (same package); each has its own root type and documents
 
 	prog *batch.Program
@@ -249,6 +250,9 @@ func Run(cfg *Config) (*Report, error) {
 			p := &batch.Program{ID: fmt.Sprintf("p%06d", i), Files: append([]batch.File{{Path: rf, Data: data}}, c.Extra...), Args: c.Args, Inputs: []string{in}, Cwd: c.Cwd, Meta: c}
 			if c.AbsInput {
 				p.Inputs = []string{filepath.Join(env.St.Root, "progs", p.ID, rf)}
+			}
+			if c.Input != "" {
+				p.Inputs = []string{c.Input}
 			}
 			for gi, gc := range c.Group {
 				if gc.RootFile == "" {
